@@ -1,7 +1,28 @@
 //! Glue between the library's scheduling-point hook (`yui::verif::point`, cfg yui_verif) and the
 //! schedule explorer in `shim-rayon`.
 
-pub use rayon::verif::{explore, run_scheduled, Abort, Config, ExploreStats, Trace};
+pub use rayon::verif::{Abort, Config, ExploreStats, Trace};
+
+/// `rayon::verif::explore` with the "panics are outcomes, not harness bugs" flag set
+pub fn explore<T>(
+    cfg: &Config,
+    bound: Option<u32>,
+    max_executions: u64,
+    f: impl FnMut() -> T,
+    on_exec: impl FnMut(std::thread::Result<T>, &Trace) -> bool,
+) -> ExploreStats {
+    let prev = vcore::run::IN_EXPLORER.with(|e| e.replace(true));
+    let st = rayon::verif::explore(cfg, bound, max_executions, f, on_exec);
+    vcore::run::IN_EXPLORER.with(|e| e.set(prev));
+    st
+}
+
+pub fn run_scheduled<T>(cfg: &Config, prefix: &[u32], f: impl FnOnce() -> T) -> (std::thread::Result<T>, Trace) {
+    let prev = vcore::run::IN_EXPLORER.with(|e| e.replace(true));
+    let r = rayon::verif::run_scheduled(cfg, prefix, f);
+    vcore::run::IN_EXPLORER.with(|e| e.set(prev));
+    r
+}
 
 fn forward(label: &'static str, loc: &'static std::panic::Location<'static>, ready: Option<&dyn Fn() -> bool>) {
     rayon::verif::point_at(label, loc.line(), ready)
